@@ -428,7 +428,7 @@ def finish(ctx, props_res, build_info, level="proof", extra_trusted=()):
         concrete = [f for f in viol if f.kind == "oracle"]
         rest = [f for f in viol if f.kind != "oracle"]
         primary = concrete[0] if concrete else rest[0]
-        path = os.path.join(VERIF, "replays", "%s-%d-%s.json" % (pid, ctx.seed, ctx.tier))
+        path = os.path.join(VERIF, "replays", "%s-%d-%s%s.json" % (pid, ctx.seed, ctx.tier, os.environ.get("VERIF_EVIDENCE_SUFFIX", "")))
         with open(path, "w") as fh:
             json.dump({
                 "property": pid, "tier": ctx.tier, "seed": ctx.seed,
@@ -447,7 +447,7 @@ def finish(ctx, props_res, build_info, level="proof", extra_trusted=()):
         "known_findings_reproduced": sorted(known_hit),
     }
     os.makedirs(os.path.join(VERIF, "evidence"), exist_ok=True)
-    with open(os.path.join(VERIF, "evidence", pid + ".json"), "w") as fh:
+    with open(os.path.join(VERIF, "evidence", pid + os.environ.get("VERIF_EVIDENCE_SUFFIX", "") + ".json"), "w") as fh:
         json.dump(ev, fh, indent=1, default=str)
     print("%s %s seed=%d: evaluations=%d distinct_nontrivial=%d obligations=%d/%d findings=%d known=%d wall=%.1fs"
           % (pid, ctx.tier, ctx.seed, ctx.cov["evaluations"], ctx.cov["distinct_nontrivial"], discharged, obligations,
